@@ -59,7 +59,7 @@ package coverage
 
 //@ func ReadSet(p *parser.Parser, pos int64) (set Set, err error)   props: C02 C18 C08
 //@   requires parser.inv(p) && pos >= 0
-//@   ensures err == nil ==> set != nil
+//@   ensures err == nil ==> set != nil && fresh(set)
 //@   ensures err == nil ==> parser.inv(p)
 //@   ensures p.r == old(p.r)
 //@   ensures faults(p.r) > old(faults(p.r)) ==> err != nil
@@ -77,7 +77,7 @@ package coverage
 
 //@ func Read(p *parser.Parser, pos int64) (table Table, err error)   props: C02 C18 C08
 //@   requires parser.inv(p) && pos >= 0
-//@   ensures err == nil ==> table != nil && covValid(table)
+//@   ensures err == nil ==> table != nil && fresh(table) && covValid(table)
 //@   ensures err == nil ==> parser.inv(p)
 //@   ensures p.r == old(p.r)
 //@   ensures faults(p.r) > old(faults(p.r)) ==> err != nil
@@ -117,3 +117,19 @@ package coverage
 //@     invariant table != nil && fresh(table) && len(table) == iter
 //@     invariant forall k int :: 0 <= k && k < iter ==> has(table, glyphs[k]) && table[glyphs[k]] == k
 //@     invariant forall g uint16 :: has(table, g) ==> exists k int :: 0 <= k && k < iter && glyphs[k] == g && table[g] == k
+
+// Prune removes exactly the glyphs whose coverage index is >= size; nothing
+// else changes (for every map iteration order).
+//@ func (table Table) Prune(size int)   props: C08 C07
+//@   ensures forall g uint16 :: has(table, g) == (old(has(table, g)) && old(table[g]) < size)
+//@   ensures forall g uint16 :: has(table, g) ==> table[g] == old(table[g])
+//@   modifies table[*]
+//@   loop 0
+//@     invariant (isnil(gg) || fresh(gg))
+//@     invariant forall k int :: 0 <= k && k < len(gg) ==> has(table, gg[k]) && table[gg[k]] >= size
+//@     invariant forall g uint16 :: seen(table, g) && table[g] >= size ==> exists k int :: hint(k, len(gg) - 1) && 0 <= k && k < len(gg) && gg[k] == g
+//@   loop 1
+//@     invariant forall g uint16 :: has(table, g) ==> old(has(table, g)) && table[g] == old(table[g])
+//@     invariant forall g uint16 :: old(has(table, g)) && old(table[g]) < size ==> has(table, g)
+//@     invariant forall k int :: iter <= k && k < len(gg) ==> oldhas(table, gg[k]) && oldat(table, gg[k]) >= size
+//@     invariant forall g uint16 :: old(has(table, g)) && old(table[g]) >= size && has(table, g) ==> exists k int :: iter <= k && k < len(gg) && gg[k] == g
